@@ -685,6 +685,16 @@ func planOf(f *ssa.Function) (*walkerPlan, string) {
 		a1 := gets[0].Call.Args[len(gets[0].Call.Args)-1]
 		a2 := gets[1].Call.Args[len(gets[1].Call.Args)-1]
 		_, firstIsParam := a1.(*ssa.Parameter)
+		if !firstIsParam {
+			// the request's coordinates travel as one struct parameter: the user is a field of it
+			src := engine.Provenance(a1, engine.ProvOpts{})
+			firstIsParam = len(src.Params) == 1 && len(src.Consts) == 0 && len(src.Calls) == 0
+			for pr := range src.Params {
+				if pr.Parent() != pl.finder {
+					firstIsParam = false
+				}
+			}
+		}
 		s, secondEmpty := engine.ConstString(a2)
 		pl.userThenAny = firstIsParam && secondEmpty && s == ""
 	}
@@ -737,6 +747,12 @@ func planOf(f *ssa.Function) (*walkerPlan, string) {
 				if ia, ok := x.Addr.(*ssa.IndexAddr); ok {
 					if k, ok := engine.ConstInt(ia.Index); ok && k == 0 {
 						pl.star = true
+					}
+				}
+				// the catch-all written into the host field of the struct the finder is called with
+				if fa, ok := x.Addr.(*ssa.FieldAddr); ok {
+					if _, local := fa.X.(*ssa.Alloc); local {
+						pl.finalStar = true
 					}
 				}
 			}
